@@ -1,6 +1,7 @@
 package main
 
 import (
+	"encoding"
 	"bytes"
 	stdjson "encoding/json"
 	"fmt"
@@ -430,6 +431,43 @@ func c05Typed(c *Ctx, b []byte) {
 	}
 }
 
+type c05StrField struct {
+	X string `json:"x"`
+}
+
+// c05Strings: a string literal (well formed or not) met by each of the string scanners: string value,
+// struct field, map key, struct key (matched against the field table or skipped), slice element,
+// UnmarshalText payload; buffer mode against encoding/json's Unmarshal, stream mode against its Decoder.
+func c05Strings(c *Ctx, lit []byte) {
+	l := string(lit)
+	type tc struct {
+		name, doc string
+		g, s      func() interface{}
+	}
+	tcs := []tc{
+		{"string", l, func() interface{} { return new(string) }, func() interface{} { return new(string) }},
+		{"field", `{"x":` + l + `}`, func() interface{} { return new(c05StrField) }, func() interface{} { return new(c05StrField) }},
+		{"mapkey", `{` + l + `:1}`, func() interface{} { return new(map[string]int) }, func() interface{} { return new(map[string]int) }},
+		{"structkey", `{` + l + `:1}`, func() interface{} { return new(c05Struct) }, func() interface{} { return new(c05Struct) }},
+		{"ifacekey", `{` + l + `:1}`, func() interface{} { return new(interface{}) }, func() interface{} { return new(interface{}) }},
+		{"elem", `[` + l + `]`, func() interface{} { return new([]string) }, func() interface{} { return new([]string) }},
+		{"text", l, func() interface{} { return new(c17Text) }, func() interface{} { return new(c17StdText) }},
+		{"ifacetext", l, func() interface{} { var u encoding.TextUnmarshaler = new(c17Text); return &u }, func() interface{} { var u encoding.TextUnmarshaler = new(c17StdText); return &u }},
+	}
+	for _, t := range tcs {
+		gerr, serr := json.Unmarshal([]byte(t.doc), t.g()), stdjson.Unmarshal([]byte(t.doc), t.s())
+		cl := ""
+		if gerr == nil && serr != nil && !stdjson.Valid([]byte(t.doc)) {
+			if refValid([]byte(t.doc), relax{ctlInString: true}) {
+				cl = "C05-ctl-in-string"
+			}
+		}
+		c.Oracle("strings/"+t.name+"/buf", t.doc, fmt.Sprintf("err=%v", gerr), fmt.Sprintf("err=%v", serr), (gerr == nil) == (serr == nil), cl)
+		gerr, serr = json.NewDecoder(strings.NewReader(t.doc)).Decode(t.g()), stdjson.NewDecoder(strings.NewReader(t.doc)).Decode(t.s())
+		c.Oracle("strings/"+t.name+"/stream", t.doc, fmt.Sprintf("err=%v", gerr), fmt.Sprintf("err=%v", serr), (gerr == nil) == (serr == nil), cl)
+	}
+}
+
 func runC05(c *Ctx) {
 	c.Rep.Rule = "exhaustive byte strings over the 26-symbol alphabet []{},:\"\\u01-+.eEtrfalsn SP NUL 0x01 0xff up to a length bound, then grammar texts with every single-byte deletion/insertion/substitution; " +
 		"op acc(range,bytes) = Unmarshal into interface{} vs Lean model; oracles: encoding/json (Unmarshal, Valid, Decoder), an independent reference recogniser; " +
@@ -458,6 +496,29 @@ func runC05(c *Ctx) {
 	}
 	rec([]byte{})
 	c.Rep.Exhaustive = append(c.Rep.Exhaustive, fmt.Sprintf("all %d byte strings of length <= %d over the 26-symbol alphabet: Unmarshal->interface{}, Valid, Decoder; length <= 3 also embedded in skipped positions of typed destinations", n, maxLen))
+	// string literals: every body over the escape alphabet (one \u escape is longer than the sweep above)
+	bl := 6
+	if c.Thorough() {
+		bl = 7
+	}
+	nb := strBodies(bl, func(body []byte) {
+		lit := quoted(body)
+		c05Verdicts(c, lit, true)
+		c05Strings(c, lit)
+		if len(body) <= 5 {
+			c05Typed(c, append(append([]byte(`{"x":`), lit...), '}'))
+		}
+	})
+	c.Rep.Exhaustive = append(c.Rep.Exhaustive, fmt.Sprintf("all %d string literals whose body is a sequence of length <= %d over \\ u 0 a F g \" n, in 7 typed positions x buffer/stream", nb, bl))
+	// every byte value as the escape letter, as each of the four hex digits, and raw
+	for x := 0; x < 256; x++ {
+		for _, f := range []string{"\"\\%c\"", "\"\\u000%c\"", "\"\\u00%c0\"", "\"\\u0%c00\"", "\"\\u%c000\"", "\"%c\"", "\"a\\%cb\""} {
+			lit := []byte(strings.Replace(f, "%c", string([]byte{byte(x)}), 1))
+			c05Verdicts(c, lit, true)
+			c05Strings(c, lit)
+			c05Typed(c, append(append([]byte(`{"x":`), lit...), '}'))
+		}
+	}
 	// grammar-generated texts and their single-byte mutations
 	ndocs := 300
 	if c.Thorough() {
